@@ -118,7 +118,27 @@ def audit(prop: str, thorough: bool = False) -> Audit:
         a.build_ok = False
         a.problems.append(f"{pfile} missing")
         return a
-    ok, log = lake_build([f"NrfProps.{prop}", "nrfdrv"])
+    # second tie (DESIGN §0.7): when the property's theorems import generated definitions (lean/NrfGen), these
+    # are rewritten from the CURRENT source ($VERIF_REPO) before the build, so that a change of a translated
+    # function breaks the build of its tie proof (-> `broken` -> failing-input search).  The lock serialises
+    # regenerate+build between checks that run at the same time with different $VERIF_REPO.
+    gen_lock = None
+    if os.environ.get("VERIF_GEN_TIE", "1") != "0" and any(
+            f.parent.name == "NrfGen" for f in imports_closure(pfile)):
+        import fcntl
+        (LEAN / ".lake").mkdir(exist_ok=True)
+        gen_lock = open(LEAN / ".lake" / "gen_tie.lock", "w")
+        fcntl.flock(gen_lock, fcntl.LOCK_EX)
+        g = subprocess.run([sys.executable, str(VERIF / "tools" / "py2lean.py")], capture_output=True,
+                           text=True, env={**os.environ, "VERIF_REPO": str(REPO)})
+        if g.returncode != 0:
+            gen_lock.close()
+            raise Infra("py2lean: " + (g.stdout + g.stderr)[-1500:])
+    try:
+        ok, log = lake_build([f"NrfProps.{prop}", "nrfdrv"])
+    finally:
+        if gen_lock is not None:
+            gen_lock.close()
     a.log = log[-4000:]
     if not ok:
         a.build_ok = False
